@@ -8,6 +8,8 @@ structure SameButRules (env env' : Env) : Prop where
   blocks : env'.blocks = env.blocks
   filesize : env'.filesize = env.filesize
   ext : env'.ext = env.ext
+  nod : env.disabled = []          -- no rule is switched off through the API in either environment
+  nod' : env'.disabled = []
 
 section frame
 variable {env env' : Env} (S : SameButRules env env')
@@ -107,7 +109,7 @@ theorem eval_rename {env env' : Env} (S : SameButRules env env') (f : Nat → Na
     simp only [renameRules, eval, eval_rename S f a l h]
   | .ruleRef k, _, h => by
     simp only [ruleRefs, List.mem_singleton, forall_eq] at h
-    simp only [renameRules, eval, h]
+    simp only [renameRules, eval, S.nod, S.nod', List.contains_nil, Bool.false_eq_true, if_false, h]
   | .ofStr q qe set, l, h => by
     simp only [ruleRefs] at h
     simp only [renameRules, eval, strFound_frame S, eval_rename S f qe l h]
@@ -124,11 +126,15 @@ theorem eval_rename {env env' : Env} (S : SameButRules env env') (f : Nat → Na
     simp only [renameRules, eval, strFound_frame S, eval_rename S f p l h]
   | .ofRules q qe set, l, h => by
     simp only [ruleRefs, List.mem_append] at h
-    simp only [renameRules, eval, List.length_map, eval_rename S f qe l (fun k hk => h k (.inl hk)),
+    have hm : ∀ e : Env, e.disabled = [] → e.ruleMatched = fun k => e.rules.getD k false := by
+      intro e he; funext k; simp [Env.ruleMatched, he]
+    simp only [renameRules, eval, List.length_map, eval_rename S f qe l (fun k hk => h k (.inl hk)), hm env S.nod, hm env' S.nod',
       countP_rename f env.rules env'.rules set (fun k hk => h k (.inr hk))]
   | .pctRules p set, l, h => by
     simp only [ruleRefs, List.mem_append] at h
-    simp only [renameRules, eval, List.length_map, eval_rename S f p l (fun k hk => h k (.inl hk)),
+    have hm : ∀ e : Env, e.disabled = [] → e.ruleMatched = fun k => e.rules.getD k false := by
+      intro e he; funext k; simp [Env.ruleMatched, he]
+    simp only [renameRules, eval, List.length_map, eval_rename S f p l (fun k hk => h k (.inl hk)), hm env S.nod, hm env' S.nod',
       countP_rename f env.rules env'.rules set (fun k hk => h k (.inr hk))]
   | .forRange q qe lo hi body, l, h => by
     simp only [ruleRefs, List.mem_append] at h
